@@ -47,6 +47,10 @@ WIDTH = {"get_byte": 1, "get_char": 1, "get_short": 2, "get_three": 3, "get_int"
 
 
 def _gen_data(rng):
+    if rng.random() < 0.01:
+        # long data with few break bytes: chunks of several thousand bytes
+        n = rng.randrange(4000, 12000)
+        return [0xFF if rng.random() < 0.0003 else rng.randrange(1, 254) for _ in range(n)]
     n = rng.choice([0, 1, 2, 3, 5, 8, 13, 21, 34, 64]) if rng.random() < 0.5 else rng.randrange(0, 65)
     style = rng.random()
     out = []
